@@ -76,6 +76,26 @@ C11_OPS = {"exp": ("T", ("repsize", [("dof", "dof")])), "log": ("G", ("dof", [("
        "bracket": ("TT", ("dof", []))}
 
 
+
+def c15_case_at(prop, group, A, B, va, vb, tins, tags):
+    """end points, geodesic law at interior parameters, rejection - at one pair of end points"""
+    dbg = True
+    plan, reqs = [], []
+    for t, ex in [(0.0, "A"), (1.0, "B")] + [(t, "geodesic") for t in tins] + [(-1e-9, "raise"), (1.0000001, "raise"), (float("nan"), "raise")]:
+        plan.append(("slerp", t, ex))
+        reqs.append(gen.req(dbg, "o", group, "interp_slerp", 0, A + B + [t]))
+    for t, ex in ((0.0, "A"), (1.0, "B"), (-0.5, "raise"), (2.0, "raise")):
+        plan.append(("cubic", t, ex))
+        reqs.append(gen.req(dbg, "o", group, "interp_cubic", 0, A + B + [t] + va + vb))
+    for m in (1, 2, 3, 4):
+        for t, ex in ((0.0, "A"), (1.0, "B"), (-0.5, "raise")):
+            plan.append(("smooth%d" % m, t, ex))
+            reqs.append(gen.req(dbg, "o", group, "interp_smooth", 0, A + B + [t] + va + vb, [m]))
+    for m in (0, 5, 7):
+        plan.append(("smooth%d" % m, 0.5, "raise"))
+        reqs.append(gen.req(dbg, "o", group, "interp_smooth", 0, A + B + [0.5] + va + vb, [m]))
+    return dict(prop=prop, group=group, kind="c15", reqs=reqs, plan=plan, tags=tags, A=A, B=B)
+
 def c11_case_at(prop, group, op, a, mask, tags):
     """the bundle-versus-elements comparison at one recorded input (directed search of C05/C11 on bundles)"""
     import l1
@@ -1271,27 +1291,17 @@ def cases_algo(prop, r, group, n, exe):
     cs = []
     dbg = True
     if prop == "C15":
-        for _ in range(n):
+        for it in range(n):
             A, ta_ = gen.element(r, group, norm="exact", lin_only=["zero", "unit", "large"])
             B, tb_ = gen.element(r, group, norm="exact", lin_only=["zero", "unit", "large"])
+            if it % 3 == 1:      # neighbours: a small relative rotation (both sides of the switch-overs) with sizeable linear parts
+                d, td_ = gen.tangent(r, group, lin_only=["unit"], angle_only=["small", "above-switch", "low"])
+                rc, o, err = vlib.run_lines(exe, [gen.req(dbg, "o", group, "rplus", 0, A + d)])
+                if o and o[0].startswith("ok"):
+                    B, tb_ = [gen.of_hex(x) for x in o[0].split()[1:]], ["near"] + td_
             va = l1.small_tangent(r, group, r.choice([0.0, 0.5, 3.0]))
             vb = l1.small_tangent(r, group, r.choice([0.0, 0.5, 3.0]))
-            plan, reqs = [], []
-            tin = r.random()
-            for t, ex in ((0.0, "A"), (1.0, "B"), (tin, "geodesic"), (-1e-9, "raise"), (1.0000001, "raise"), (float("nan"), "raise")):
-                plan.append(("slerp", t, ex))
-                reqs.append(gen.req(dbg, "o", group, "interp_slerp", 0, A + B + [t]))
-            for t, ex in ((0.0, "A"), (1.0, "B"), (-0.5, "raise"), (2.0, "raise")):
-                plan.append(("cubic", t, ex))
-                reqs.append(gen.req(dbg, "o", group, "interp_cubic", 0, A + B + [t] + va + vb))
-            for m in (1, 2, 3, 4):
-                for t, ex in ((0.0, "A"), (1.0, "B"), (-0.5, "raise")):
-                    plan.append(("smooth%d" % m, t, ex))
-                    reqs.append(gen.req(dbg, "o", group, "interp_smooth", 0, A + B + [t] + va + vb, [m]))
-            for m in (0, 5, 7):
-                plan.append(("smooth%d" % m, 0.5, "raise"))
-                reqs.append(gen.req(dbg, "o", group, "interp_smooth", 0, A + B + [0.5] + va + vb, [m]))
-            cs.append(dict(prop=prop, group=group, kind="c15", reqs=reqs, plan=plan, tags=ta_ + tb_, A=A, B=B))
+            cs.append(c15_case_at(prop, group, A, B, va, vb, [r.random(), r.random()], ta_ + tb_))
         plan, reqs = [], []
         grid = [0.0, 1.0] + sorted(r.random() for _ in range(40))
         for m in (1, 2, 3, 4, 0, 5, 6, -1, 100):
@@ -1372,7 +1382,7 @@ def cases_algo(prop, r, group, n, exe):
                     i += m
                 plan.append(("accept" if abs(k) < 0.95 else "reject", abs(k) * gen.EPS))
                 reqs.append(gen.req(dbg, "o", group, "make", 0, Xs))
-                sc = r.choice([1e-3, 0.5, 1.0, 3.0, 1e5])
+                sc = r.choice([1e-3, 0.5, 1.0, 3.0, 1e5, 1 + 5e-9, 1 - 3e-10, 1 + 1e-12, 1 + 1e-6, 1 - 2e-5])
                 Xn, i = list(X), 0
                 for kind, m in gen.GROUPS[group]["rep"]:
                     if kind in ("complex", "quat"):
